@@ -8,8 +8,12 @@ HK(n) == Norm(<<n, 100>>)
 R(n, d) == Norm(<<n, d>>)
 AllModes == {"unitless", "concplain", "units", "scaled", "scaledT"}
 P1(f, Ts) == { [fn |-> f, a |-> [NoArgs EXCEPT !.T = HK(t)]] : t \in Ts }
+(* the same relations with their optional arguments passed explicitly (documented default value, *)
+(* or another eta20): the value must not change / must scale with eta20                           *)
+P1x(f, Ts, Etas) == { [fn |-> f, a |-> [NoArgs EXCEPT !.T = HK(t), !.impl = FALSE, !.eta20 = e]] : t \in Ts, e \in Etas }
 PermPts(Ts, Ps) == { [fn |-> "water_permittivity", a |-> [NoArgs EXCEPT !.T = HK(t), !.P = R(p, 1)]] : t \in Ts, p \in Ps }
 AcidPts(Ws, Ts) == { [fn |-> "sulfuric_acid_density", a |-> [NoArgs EXCEPT !.T = HK(t), !.w = R(w, 100)]] : w \in Ws, t \in Ts }
+AcidPtsX(Ws, Ts) == { [fn |-> "sulfuric_acid_density", a |-> [NoArgs EXCEPT !.T = HK(t), !.w = R(w, 100), !.impl = FALSE]] : w \in Ws, t \in Ts }
 MH2SO4 == R(9807948, 100000000)            \* 98.07948 g/mol = 2 H + S + 4 O, in kg/mol
 InvPts(Ws, Ts) == { [fn |-> "density_from_concentration", a |-> [NoArgs EXCEPT !.T = HK(t), !.w = R(w, 100), !.M = MH2SO4]] :
                       w \in Ws, t \in Ts }
@@ -17,6 +21,7 @@ SchumpePts(Sels, Cs) == { [fn |-> "lg_solubility_ratio", a |-> [NoArgs EXCEPT !.
                             s \in Sels, c \in Cs }
 HenryPts(Fs, Sels, Ts, Xs) ==
     { [fn |-> f, a |-> [NoArgs EXCEPT !.T = HK(t), !.H0 = HenrySel[s].H0, !.Td = HenrySel[s].Td, !.sel = s,
+                                      !.T0 = HenrySel[s].T0, !.impl = HenrySel[s].impl,
                                       !.P = IF f \in {"henry_c", "henry_roundtrip"} THEN x ELSE QZero,
                                       !.c1 = IF f = "henry_P" THEN x ELSE QZero]] :
         f \in Fs, s \in Sels, t \in Ts, x \in Xs }
@@ -33,12 +38,15 @@ Conc_q == { <<R(1, 20), R(1, 20)>>, <<R(1, 2), R(1, 4)>>, <<R(1, 1000), R(2, 1)>
 NC_q == { <<R(145, 1), R(15, 1)>>, <<R(4, 1), R(150, 1)>>, <<R(10, 1), R(10, 1)>>, <<R(2, 1), R(7, 100000)>> }
 Pts_q ==
     P1("water_density", TW_q) \cup P1("water_viscosity", TV_q) \cup P1("water_diffusion", TV_q)
+    \cup P1x("water_density", {27315, 27715, 31316}, {Eta20})
+    \cup P1x("water_viscosity", {27315, 29315, 31000, 37316}, {Eta20, R(626, 625)})
+    \cup AcidPtsX({50}, {29300, 27314})
     \cup PermPts(TP_q, {1, 1000}) \cup PermPts({37315}, {3000})
     \cup AcidPts({10, 50, 90, 5, 95}, TA_q) \cup InvPts({10, 30, 50}, {27315, 29300, 32315})
     \cup SchumpePts(1..6, Conc_q)
-    \cup HenryPts({"henry_H"}, {1, 2}, {27315, 29000, 29815, 31000, 35000}, {QZero})
-    \cup HenryPts({"henry_c", "henry_roundtrip"}, {1, 3}, {29000, 29815, 31000}, {R(1, 1), R(21, 100)})
-    \cup HenryPts({"henry_P"}, {1, 2}, {29000, 29815, 31000}, {R(1, 1000), R(1, 4)})
+    \cup HenryPts({"henry_H"}, {1, 2, 4, 5}, {27315, 29315, 29815, 31000, 35000}, {QZero})
+    \cup HenryPts({"henry_c", "henry_roundtrip"}, {1, 3, 4}, {29000, 29815, 31000}, {R(1, 1), R(21, 100)})
+    \cup HenryPts({"henry_P"}, {1, 2, 5}, {29000, 29815, 31000}, {R(1, 1000), R(1, 4)})
     \cup NernstPts({29815, 31000}, {-2, -1, 1, 2}, NC_q)
     \cup MobPts({27315, 30000}, {-2, 1, 3}, {R(3, 1000000000), R(93, 1000000000)})
 =============================================================================
